@@ -464,6 +464,11 @@ fn reopen_one<A: Allocator>(dir: &str, tag: &str, fl: Freelist, reserved: u32, b
     let mut h3 = it.next().unwrap();
     drop(h1);
     a.increase_discarded(3);
+    {
+      // leave non-zero bytes above the cursor: a filled allocation released from the top
+      let mut t = a.alloc_bytes(64).expect("alloc");
+      t.put_slice(&[0xCC; 64]).unwrap();
+    }
     let mut lv = Vec::new();
     for h in [&mut h0, &mut h2, &mut h3] {
       unsafe { h.detach() };
@@ -545,6 +550,12 @@ fn reopen_one<A: Allocator>(dir: &str, tag: &str, fl: Freelist, reserved: u32, b
         if mem[before.allocated..].iter().any(|b| *b != 0) {
           println!("NATIVE R1 violated: [{tag} {label}] bytes at or above the stored cursor are not zero after the reopen");
           bad[1] += 1;
+        }
+        if let Ok(b) = a.alloc_bytes(64) {
+          if b.offset() >= before.allocated && a.memory()[b.offset()..b.offset() + 64].iter().any(|x| *x != 0) {
+            println!("NATIVE R1 violated: [{tag} {label}] alloc_bytes after the reopen returns non-zero memory (C08)");
+            bad[1] += 1;
+          }
         }
         if mode == "map_mut" {
           // new allocations never overlap the ranges that were live before closing
